@@ -176,8 +176,10 @@ def extract(src_dir=None):
     out["hello_roles"] = role_names("Hello")
     out["welcome_roles"] = role_names("Welcome")
 
-    # forward_for loop: repaired (`for … else: valid = True`) or not, per class
+    # forward_for loop: repaired (`for … else: valid = True`) or not, per class; and whether the entry check
+    # admits `authid: None` (`ff["authid"] is not None and type(ff["authid"]) != str`) — must be uniform over the sites
     ff = {}
+    ff_none = {}
     lens = {}
     for c in CLASSES:
         p = _func(_class(mt, c), "parse")
@@ -188,8 +190,14 @@ def extract(src_dir=None):
                               and s.targets[0].id == "valid" for s in n.orelse)
                 has_raise = any(isinstance(s, ast.Raise) for s in ast.walk(n))
                 state = bool(in_else or has_raise)
+                # the `if "authid" not in ff or …: break` test
+                for t in ast.walk(n):
+                    if isinstance(t, ast.If) and "authid" in ast.unparse(t.test):
+                        ff_none[c] = "is not None" in ast.unparse(t.test)
         if state is not None:
             ff[c] = state
+            if c not in ff_none:
+                raise ValueError(f"{c}.parse: forward_for loop without an authid test")
         # admissible lengths: first `len(wmsg) != N` or `len(wmsg) not in (...)`
         ls = None
         for n in ast.walk(p):
@@ -203,6 +211,9 @@ def extract(src_dir=None):
             raise ValueError(f"length check not found in {c}.parse")
         lens[c] = ls
     out["ff_fixed"] = ff
+    if len(set(ff_none.values())) != 1:
+        raise ValueError(f"forward_for authid checks differ between classes: {ff_none}")
+    out["ff_authid_none_ok"] = next(iter(ff_none.values()))
     out["lengths"] = lens
 
     # NAME / BINARY of the object serializers (text/binary flag reported by Serializer.serialize)
@@ -255,6 +266,9 @@ def render(d):
     for c in CLASSES:
         if c in d["ff_fixed"]:
             L.append(f"def ffFixed_{c} : Bool := {'true' if d['ff_fixed'][c] else 'false'}")
+    L.append("")
+    L.append("/-- do the `forward_for` entry checks of `parse` admit `authid: None` (as the constructors and marshal() do)? -/")
+    L.append(f"def ffAuthidNoneOk : Bool := {'true' if d['ff_authid_none_ok'] else 'false'}")
     L.append("")
     L.append("/-- object serializer NAME ↦ its BINARY class attribute (what `Serializer.serialize` reports as is_binary) -/")
     L.append("def serializerBinary : List (List Char × Bool) := [" + ", ".join(
